@@ -13,6 +13,7 @@ CONSTANTS
   WithErrors = TRUE
   WithIdle = TRUE
   WithSleep = FALSE
+  WithWalFaults = FALSE
   WithStop = FALSE
   TimeoutTypes = {}
   KeepLog = TRUE
